@@ -44,6 +44,8 @@ func TestVerifC07(t *testing.T) {
 			}
 			return &c07Cfg{U: [3]int{1, 1, 3}, ecn: none, forget: true, forgetOld: true, drops: true, ticks: true}
 		}, "all three spaces"),
+		// the threshold is derived by a real sentPacketHandler from the peer's ACK frames (with gaps)
+		c07WiredPart("wired"),
 		// application data: arrival orders x ack-eliciting x forget-below x clock x ACK retrieval
 		c07HandlerPart("appdata", func(e explore.Env) *c07Cfg {
 			return &c07Cfg{U: [3]int{0, 0, c07Pick(e, 6, 7)}, ecn: none, forget: true, forgetOld: e.Thorough(), ticks: true}
